@@ -310,8 +310,58 @@ def sweeps(tier, rng):
                 yield (("makeOutputFileName", name), None if inside else "output %r escapes outputDir" % out)
         finally:
             shutil.rmtree(tmp, ignore_errors=True)
+    def run_output_location():
+        """a designspace document is data: whatever <variable-font filename=...> says, `fonttools varLib --output-dir OUT` creates
+        files inside OUT only (hostile names from a small grammar: parent steps first / in the middle / after './', absolute, nested)"""
+        import logging
+        from fontTools.designspaceLib import DesignSpaceDocument, RangeAxisSubsetDescriptor, VariableFontDescriptor
+        from fontTools.varLib import main as varLib_main
+        data_dir = os.path.join(corpus.REPO if hasattr(corpus, "REPO") else "/repo", "Tests", "varLib", "data")
+        root = tempfile.mkdtemp(prefix="fvC20o_")
+        try:
+            work = os.path.join(root, "jail", "deep", "work"); outdir = os.path.join(work, "out"); masters = os.path.join(work, "masters")
+            os.makedirs(outdir)
+            shutil.copytree(os.path.join(data_dir, "master_ttx_interpolatable_ttf"), masters)
+            def snapshot():
+                seen = set()
+                for dp, dn, fn in os.walk(root):
+                    for n in dn + fn: seen.add(os.path.join(dp, n))
+                return seen
+            comps = ["..", ".", "a", "nested", "..", "b c", "...", "..a"]
+            names = ["Plain-VF.ttf", "nested/Sub-VF.ttf", "../../P-VF.ttf", os.path.join(root, "Abs-VF.ttf"), "nested/../../In-VF.ttf",
+                     "./../../Dot-VF.ttf", "a/b/../../../../Deep-VF.ttf", "a/./../../X-VF.ttf", "..", "nested/.."]
+            for _ in range(N(tier, 4, 40)):
+                k = rng.randint(1, 5)
+                names.append("/".join(rng.choice(comps) for _ in range(k)) + "/G%d-VF.ttf" % len(names))
+            per_doc = 7
+            for start in range(0, len(names), per_doc):
+                chunk = names[start:start + per_doc]
+                failure = None
+                try:
+                    doc = DesignSpaceDocument.fromfile(os.path.join(data_dir, "Build.designspace"))
+                    doc.formatVersion = "5.0"
+                    for i, fn in enumerate(chunk):
+                        doc.addVariableFont(VariableFontDescriptor(name="vf%d" % (start + i), filename=fn,
+                                                                   axisSubsets=[RangeAxisSubsetDescriptor(name=a.name) for a in doc.axes]))
+                    ds_path = os.path.join(work, "doc%d.designspace" % start); doc.write(ds_path)
+                    before = snapshot()
+                    logging.disable(logging.CRITICAL)
+                    try:
+                        varLib_main([ds_path, "--output-dir", outdir, "--master-finder", os.path.join(masters, "{stem}.ttx"), "-q"])
+                    except BaseException as e:          # refusing is fine; writing elsewhere is not
+                        pass
+                    finally:
+                        logging.disable(logging.NOTSET)
+                    inside = os.path.join(os.path.realpath(outdir), "")
+                    escaped = sorted(os.path.relpath(p_, root) for p_ in snapshot() - before if not (os.path.realpath(p_) + os.sep).startswith(inside))
+                    if escaped: failure = "varLib --output-dir %s with variable-font filenames %r created %r outside it" % (os.path.relpath(outdir, root), chunk, escaped)
+                except Exception as e:
+                    failure = "output-location harness raised %r" % (e,)
+                yield (("varLib.main", tuple(chunk)), failure)
+        finally:
+            shutil.rmtree(root, ignore_errors=True)
     return [Sweep("container-damage", run_containers), Sweep("ignore-decompile-errors", run_ignore_errors),
-            Sweep("damaged-resave", run_damaged_resave), Sweep("failed-save", run_failed_save), Sweep("data-only", run_canary)]
+            Sweep("damaged-resave", run_damaged_resave), Sweep("failed-save", run_failed_save), Sweep("data-only", run_canary), Sweep("output-location", run_output_location)]
 
 def classify(sweep, case, failure):
     if sweep == "container-damage" and isinstance(case, tuple):
